@@ -480,6 +480,16 @@ def rule_document_order(rep: Report, repo: Repo, r_order: str, r_module: Optiona
                 sets_default = any(x[0] == "store" and x[1] == ("elem", e[1], None) and x[2] == "name" and x[3] == attr(SELF, "module_name")
                                    for x in oc["effects"])
                 depends = any(contains(c, elem_name) for c, _v in oc["conds"])
+                # deferred form: the loop only remembers the name (`explicit = doc.name` on the named path, None before the loop),
+                # and the title is set once after the loop from the remembered value
+                if not sets_title and depends:
+                    for var_, val_ in oc["assign"].items():
+                        if val_ == elem_name and lp["pre"].get(var_) == NONE:
+                            tag = f"loopval#{e[1]}({var_})"
+                            later = [x for x in o.effects if x[0] == "store" and x[1] == attr(SELF, "writer") and x[2] == "title"
+                                     and show(x[3]) == tag]
+                            if later:
+                                sets_title = True
                 if other_title:
                     both += 1
                 if sets_title and sets_default:
